@@ -268,21 +268,21 @@ open BtcVerif.Model.ScriptEval BtcVerif.Spec.Script BtcVerif.Spec.Templates BtcV
 
 /-- pay-to-pubkey -/
 theorem p2pk_verify (c : Ctx) (fl : Flags) (body : Bytes) (ht : UInt8) (key : Bytes)
-    (hfl : fl.admissible = true) (hidx : 0 ≤ c.inIdx) (hk : key.length < 0x4c) (hs : body.length + 1 < 0x4c)
+    (hfl : fl.admissible = true) (hidx : c.SigTotal) (hk : key.length < 0x4c) (hs : body.length + 1 < 0x4c)
     (hne : body.length + 1 ≠ key.length) :
     verifyScript c fl (p2pkScriptSig (body ++ [ht])) (p2pkScript key) =
       if c.env.sigCheck body key (p2pkScript key) ht.toNat then .ok () else .error .verify :=
   verify_p2pk c fl body ht key hfl hidx hk hs hne
 
 theorem template_accepts_p2pk (c : Ctx) (fl : Flags) (body : Bytes) (ht : UInt8) (key : Bytes)
-    (hfl : fl.admissible = true) (hidx : 0 ≤ c.inIdx) (hk : key.length < 0x4c) (hs : body.length + 1 < 0x4c)
+    (hfl : fl.admissible = true) (hidx : c.SigTotal) (hk : key.length < 0x4c) (hs : body.length + 1 < 0x4c)
     (hne : body.length + 1 ≠ key.length)
     (horacle : c.env.sigCheck body key (p2pkScript key) ht.toNat = true) :
     verifyScript c fl (p2pkScriptSig (body ++ [ht])) (p2pkScript key) = .ok () := by
   rw [p2pk_verify c fl body ht key hfl hidx hk hs hne, horacle]; rfl
 
 theorem template_rejects_wrong_key_p2pk (c : Ctx) (fl : Flags) (body : Bytes) (ht : UInt8) (key : Bytes)
-    (hfl : fl.admissible = true) (hidx : 0 ≤ c.inIdx) (hk : key.length < 0x4c) (hs : body.length + 1 < 0x4c)
+    (hfl : fl.admissible = true) (hidx : c.SigTotal) (hk : key.length < 0x4c) (hs : body.length + 1 < 0x4c)
     (hne : body.length + 1 ≠ key.length)
     (horacle : c.env.sigCheck body key (p2pkScript key) ht.toNat = false) :
     verifyScript c fl (p2pkScriptSig (body ++ [ht])) (p2pkScript key) = .error .verify := by
@@ -290,7 +290,7 @@ theorem template_rejects_wrong_key_p2pk (c : Ctx) (fl : Flags) (body : Bytes) (h
 
 /-- pay-to-pubkey-hash, spent with the key whose HASH160 the script commits to -/
 theorem p2pkh_verify (c : Ctx) (fl : Flags) (body : Bytes) (ht : UInt8) (key : Bytes)
-    (hfl : fl.admissible = true) (hidx : 0 ≤ c.inIdx) (hk : key.length < 0x4c) (hs : body.length + 1 < 0x4c)
+    (hfl : fl.admissible = true) (hidx : c.SigTotal) (hk : key.length < 0x4c) (hs : body.length + 1 < 0x4c)
     (hhl : (c.env.hashes.hash160 key).length = 20) (hne : body.length + 1 ≠ 20) :
     verifyScript c fl (p2pkhScriptSig (body ++ [ht]) key) (p2pkhScript (c.env.hashes.hash160 key)) =
       if c.env.sigCheck body key (p2pkhScript (c.env.hashes.hash160 key)) ht.toNat then .ok ()
@@ -298,7 +298,7 @@ theorem p2pkh_verify (c : Ctx) (fl : Flags) (body : Bytes) (ht : UInt8) (key : B
   verify_p2pkh c fl body ht key hfl hidx hk hs hhl hne
 
 theorem template_accepts_p2pkh (c : Ctx) (fl : Flags) (body : Bytes) (ht : UInt8) (key : Bytes)
-    (hfl : fl.admissible = true) (hidx : 0 ≤ c.inIdx) (hk : key.length < 0x4c) (hs : body.length + 1 < 0x4c)
+    (hfl : fl.admissible = true) (hidx : c.SigTotal) (hk : key.length < 0x4c) (hs : body.length + 1 < 0x4c)
     (hhl : (c.env.hashes.hash160 key).length = 20) (hne : body.length + 1 ≠ 20)
     (horacle : c.env.sigCheck body key (p2pkhScript (c.env.hashes.hash160 key)) ht.toNat = true) :
     verifyScript c fl (p2pkhScriptSig (body ++ [ht]) key) (p2pkhScript (c.env.hashes.hash160 key)) = .ok () := by
@@ -306,7 +306,7 @@ theorem template_accepts_p2pkh (c : Ctx) (fl : Flags) (body : Bytes) (ht : UInt8
 
 /-- … with the right key but a signature the oracle rejects (made by another key / for another digest) -/
 theorem template_rejects_wrong_key_p2pkh (c : Ctx) (fl : Flags) (body : Bytes) (ht : UInt8) (key : Bytes)
-    (hfl : fl.admissible = true) (hidx : 0 ≤ c.inIdx) (hk : key.length < 0x4c) (hs : body.length + 1 < 0x4c)
+    (hfl : fl.admissible = true) (hidx : c.SigTotal) (hk : key.length < 0x4c) (hs : body.length + 1 < 0x4c)
     (hhl : (c.env.hashes.hash160 key).length = 20) (hne : body.length + 1 ≠ 20)
     (horacle : c.env.sigCheck body key (p2pkhScript (c.env.hashes.hash160 key)) ht.toNat = false) :
     verifyScript c fl (p2pkhScriptSig (body ++ [ht]) key) (p2pkhScript (c.env.hashes.hash160 key)) =
@@ -335,7 +335,7 @@ theorem matching_iff_greedy_reverse (chk : Bytes → Bytes → Bool) (sigs keys 
 /-- bare m-of-n multisig, 1 ≤ m ≤ n ≤ 20: accepted exactly when the m signatures can be assigned, in
     order, to m of the n keys such that the oracle accepts each pair -/
 theorem multisig_verify (c : Ctx) (fl : Flags) (m : Nat) (keys sigs : List Bytes)
-    (hfl : fl.admissible = true) (hidx : 0 ≤ c.inIdx) (hm1 : 1 ≤ m) (hmn : m ≤ keys.length)
+    (hfl : fl.admissible = true) (hidx : c.SigTotal) (hm1 : 1 ≤ m) (hmn : m ≤ keys.length)
     (hn : keys.length ≤ 20) (hsl : sigs.length = m)
     (hk : ∀ k ∈ keys, k.length < 0x4c) (hs : ∀ s ∈ sigs, s.length < 0x4c) (hs1 : ∀ s ∈ sigs, s.length ≠ 1)
     (hne : ∀ s ∈ sigs, ∀ k ∈ keys, s.length ≠ k.length) :
@@ -355,7 +355,7 @@ theorem multisig_verify (c : Ctx) (fl : Flags) (m : Nat) (keys sigs : List Bytes
 
 /-- every signature accepted for "its" key, the keys in order (`pos` strictly increasing): accepted -/
 theorem template_accepts_multisig (c : Ctx) (fl : Flags) (m : Nat) (keys sigs : List Bytes)
-    (hfl : fl.admissible = true) (hidx : 0 ≤ c.inIdx) (hm1 : 1 ≤ m) (hmn : m ≤ keys.length)
+    (hfl : fl.admissible = true) (hidx : c.SigTotal) (hm1 : 1 ≤ m) (hmn : m ≤ keys.length)
     (hn : keys.length ≤ 20) (hsl : sigs.length = m)
     (hk : ∀ k ∈ keys, k.length < 0x4c) (hs : ∀ s ∈ sigs, s.length < 0x4c) (hs1 : ∀ s ∈ sigs, s.length ≠ 1)
     (hne : ∀ s ∈ sigs, ∀ k ∈ keys, s.length ≠ k.length)
@@ -366,7 +366,7 @@ theorem template_accepts_multisig (c : Ctx) (fl : Flags) (m : Nat) (keys sigs : 
 /-- signatures repeated from one key, out of key order, or from a key that is not in the script
     admit no such assignment: rejected -/
 theorem template_rejects_wrong_key_multisig (c : Ctx) (fl : Flags) (m : Nat) (keys sigs : List Bytes)
-    (hfl : fl.admissible = true) (hidx : 0 ≤ c.inIdx) (hm1 : 1 ≤ m) (hmn : m ≤ keys.length)
+    (hfl : fl.admissible = true) (hidx : c.SigTotal) (hm1 : 1 ≤ m) (hmn : m ≤ keys.length)
     (hn : keys.length ≤ 20) (hsl : sigs.length = m)
     (hk : ∀ k ∈ keys, k.length < 0x4c) (hs : ∀ s ∈ sigs, s.length < 0x4c) (hs1 : ∀ s ∈ sigs, s.length ≠ 1)
     (hne : ∀ s ∈ sigs, ∀ k ∈ keys, s.length ≠ k.length)
@@ -376,7 +376,7 @@ theorem template_rejects_wrong_key_multisig (c : Ctx) (fl : Flags) (m : Nat) (ke
 
 /-- P2SH wrapping of pay-to-pubkey (flag P2SH set) -/
 theorem p2sh_p2pk_verify (c : Ctx) (fl : Flags) (body : Bytes) (ht : UInt8) (key : Bytes)
-    (hfl : fl.admissible = true) (hp : fl.p2sh = true) (hidx : 0 ≤ c.inIdx) (hk : key.length + 2 < 0x4c)
+    (hfl : fl.admissible = true) (hp : fl.p2sh = true) (hidx : c.SigTotal) (hk : key.length + 2 < 0x4c)
     (hs : body.length + 1 < 0x4c) (hhl : ∀ x, (c.env.hashes.hash160 x).length = 20)
     (hne : body.length + 1 ≠ key.length) :
     verifyScript c fl (p2shScriptSig (p2pkScriptSig (body ++ [ht])) (p2pkScript key))
@@ -391,7 +391,7 @@ theorem p2sh_p2pk_verify (c : Ctx) (fl : Flags) (body : Bytes) (ht : UInt8) (key
 
 /-- P2SH wrapping of pay-to-pubkey-hash -/
 theorem p2sh_p2pkh_verify (c : Ctx) (fl : Flags) (body : Bytes) (ht : UInt8) (key : Bytes)
-    (hfl : fl.admissible = true) (hp : fl.p2sh = true) (hidx : 0 ≤ c.inIdx) (hk : key.length < 0x4c)
+    (hfl : fl.admissible = true) (hp : fl.p2sh = true) (hidx : c.SigTotal) (hk : key.length < 0x4c)
     (hs : body.length + 1 < 0x4c) (hhl : ∀ x, (c.env.hashes.hash160 x).length = 20) (hne : body.length + 1 ≠ 20) :
     verifyScript c fl
         (p2shScriptSig (p2pkhScriptSig (body ++ [ht]) key) (p2pkhScript (c.env.hashes.hash160 key)))
@@ -408,7 +408,7 @@ theorem p2sh_p2pkh_verify (c : Ctx) (fl : Flags) (body : Bytes) (ht : UInt8) (ke
 
 /-- P2SH wrapping of m-of-n multisig (serialised script within the 520-byte element limit) -/
 theorem p2sh_multisig_verify (c : Ctx) (fl : Flags) (m : Nat) (keys sigs : List Bytes)
-    (hfl : fl.admissible = true) (hp : fl.p2sh = true) (hidx : 0 ≤ c.inIdx) (hm1 : 1 ≤ m) (hmn : m ≤ keys.length)
+    (hfl : fl.admissible = true) (hp : fl.p2sh = true) (hidx : c.SigTotal) (hm1 : 1 ≤ m) (hmn : m ≤ keys.length)
     (hn : keys.length ≤ 20) (hsl : sigs.length = m)
     (hk : ∀ k ∈ keys, k.length < 0x4c) (hs : ∀ s ∈ sigs, s.length < 0x4c) (hs1 : ∀ s ∈ sigs, s.length ≠ 1)
     (hne : ∀ s ∈ sigs, ∀ k ∈ keys, s.length ≠ k.length)
@@ -450,7 +450,7 @@ section edits
 open BtcVerif.Model.ScriptEval BtcVerif.Spec.Script BtcVerif.Spec.Templates BtcVerif.C05T
 variable (hashes : Hashes) (ecdsa : Bytes → Bytes → Bytes → Bool) (tx : Tx) (i : Nat) (e : Edit) (fl : Flags)
 
-theorem txCtx_inIdx : 0 ≤ (txCtx hashes ecdsa tx i).inIdx := Int.natCast_nonneg i
+theorem txCtx_inIdx : (txCtx hashes ecdsa tx i).SigTotal := ⟨fun _ _ _ => ⟨_, rfl⟩⟩
 
 /-- the signature oracle of the edited transaction agrees with that of the original on every
     signature whose hash type leaves the edit uncommitted -/
@@ -770,7 +770,11 @@ open BtcVerif.Model.ScriptEval BtcVerif.Spec.Script BtcVerif.Spec.Templates BtcV
 def exEnv : Env :=
   { hashes := { sha1 := fun _ => [], ripemd160 := fun _ => List.replicate 20 7, sha256 := fun x => x }
     sigCheck := fun body key _ _ => body[1]? == key[1]? }
-def exCtx : Ctx := { env := exEnv, inIdx := 1, nVin := 3, nVout := 3 }
+def exCtx : Ctx :=
+  { hashes := exEnv.hashes, sigHash := fun _ _ => .ok [], sigVerify := fun body key _ => body[1]? == key[1]? }
+theorem exCtx_total : exCtx.SigTotal := ⟨fun _ _ _ => ⟨_, rfl⟩⟩
+/-- lets the `by decide` of the examples below discharge the `SigTotal` hypothesis -/
+instance : Decidable exCtx.SigTotal := isTrue exCtx_total
 def exKey (j : UInt8) : Bytes := 2 :: List.replicate 32 j
 def exBody (j : UInt8) : Bytes := 0x30 :: j :: List.replicate 68 0
 def exFlags : Flags := { p2sh := true, nullDummy := true, cleanStack := true, discourageNops := false }
